@@ -133,7 +133,217 @@ def gen_c13(seed, tier, start):
     return with_options(cs, lambda o, c: o.__setitem__("optimize", True) if c["id"] % 4 else None)
 
 
+def jsfree_cases(start, tier, seed):
+    import glob
+    out = []
+    files = sorted(glob.glob(os.path.join(ROOT, "corpus", "jsfree", "*.js")))
+    optsets = ['{}', '{"optimize":true,"transformOn":true}', '{"mergeProps":false,"enableObjectSlots":false,"pragma":"h"}',
+               '{"customElementPatterns":["^x-"],"optimize":true}']
+    if tier != "quick":
+        optsets += ['{"transformOn":true}', '{"optimize":true,"mergeProps":false}', '{"enableObjectSlots":false}', '{"pragma":"h","optimize":true}']
+    i = start
+    for k, f in enumerate(files):
+        src = open(f, encoding="utf-8").read()
+        for o in (optsets if tier != "quick" else [optsets[(k + seed) % len(optsets)]]):
+            out.append({"id": i, "src": src, "syntax": "jsx", "options": o, "stream": "jsfree", "feat": ["jsfree"]})
+            i += 1
+    return out
+
+
+def gen_c09(seed, tier, start):
+    cs = jsfree_cases(start, tier, seed)
+    return cs + gen_modules(seed, tier, start + len(cs), 200, 5000)
+
+
+def judge_c09(case, side, res):
+    v = make_judge(None, None, whole=True)(case, side, res)
+    if res and side.get("status") == "ok":
+        if res.get("oC09frame", "1") != "1":
+            v["ok"] = False; v["oracle_why"] = "a JSX-free module did not come back unchanged"
+        elif res.get("oC09idem", "1") != "1":
+            v["ok"] = False; v["oracle_why"] = "the second pass over the output changed it"
+    return v
+
+
+def judge_c07(case, side, res):
+    v = make_judge(None, "vC07")(case, side, res)
+    if res and side.get("status") == "ok":
+        if not side.get("diags"):
+            if res.get("oC07", "1") != "1":
+                v["ok"] = False; v["oracle_why"] = "JSX nodes left in the output and no diagnostic"
+            elif side.get("reparse_ok") is False:
+                v["ok"] = False; v["oracle_why"] = "printed output does not re-parse as plain %s and no diagnostic" % case["syntax"]
+    return v
+
+
+def judge_c08(case, side, res):
+    v = make_judge(None, None, whole=True)(case, side, res)
+    st = side.get("status")
+    if st in ("panic", "abort", "timeout"):
+        v["relevant"] = True; v["ok"] = False
+        v["oracle_why"] = "the transform did not return: %s %s" % (st, side.get("panic", ""))
+        slug = CYCLE_KNOWN(case)
+        if slug:
+            v["known"] = slug
+    elif st == "ok" and side.get("rerun_same") is False:
+        v["ok"] = False; v["oracle_why"] = "a second run in the same process gave a different result"
+    return v
+
+
+def CYCLE_KNOWN(case):
+    return None
+
+
+def c08_fresh_process_extra(seed, tier):
+    """the same cases in two fresh processes, in different orders: byte-identical results"""
+    cases = gen_modules(seed + 77, tier, 0, 120, 2000)
+    os.makedirs(WORK, exist_ok=True)
+    outs = []
+    for k, order in enumerate((cases, list(reversed(cases)))):
+        cj = os.path.join(WORK, "c08.fresh%d.jsonl" % k)
+        with open(cj, "w") as f:
+            for c in order:
+                f.write(json.dumps({"id": c["id"], "src": c["src"], "syntax": c["syntax"], "options": c["options"]}) + "\n")
+        tok = os.path.join(WORK, "c08.fresh%d.tok" % k); side = os.path.join(WORK, "c08.fresh%d.side" % k)
+        subprocess.run([HARNESS, "run", cj, tok, side], timeout=1200, stdout=subprocess.PIPE, stderr=subprocess.PIPE)
+        d = {}
+        for l in open(side):
+            r = json.loads(l)
+            d[r["id"]] = (r.get("status"), r.get("printed"), r.get("diags"))
+        outs.append(d)
+        for f in (cj, tok, side):
+            if os.path.exists(f):
+                os.remove(f)
+    viol = []
+    for c in cases:
+        if outs[0].get(c["id"]) != outs[1].get(c["id"]):
+            viol.append({"source": c["src"], "options": c["options"], "run1": outs[0].get(c["id"]), "run2": outs[1].get(c["id"])})
+    return {"n": len(cases), "violations": viol, "disagreements": [],
+            "samples": [{"source": cases[0]["src"][-200:], "options": cases[0]["options"], "fresh_process_equal": True}],
+            "what": "%d cases run in two fresh processes in opposite orders; status, printed output and diagnostics compared byte for byte" % len(cases)}
+
+
+def gen_pairs_optimize(seed, tier, start):
+    cs = gen_modules(seed, tier, start, 240, 6000)
+    for c in cs:
+        o = json.loads(c["options"]); o["optimize"] = True
+        a = dict(o); a["optimize"] = False
+        c["options"] = json.dumps(o); c["options_alt"] = json.dumps(a)
+    return cs
+
+
+OPTION_TEXTS = [
+    '{}', '[]', ' { } ', '{"optimize":true}', '{"optimize":true,"optimize":false}', '{"transform_on":true}',
+    '{"unknown":1,"optimize":true}', '{"optimize":"yes"}', '{"pragma":null}', '{"pragma":"h"}', '{"pragma":1}',
+    '{"customElementPatterns":["^x-"]}', '{"customElementPatterns":["("]}', '{"customElementPatterns":"^x-"}',
+    '{"customElementPatterns":[1]}', '{"customElementPatterns":["^a","[z-a]"]}', 'null', '1', '"s"', 'true',
+    '[true]', '[false,true,["^x-"],false,false,"h",true]', '[false,true,["("]]', '[1]', '[false,false,[],true,true,null,false,1]',
+    '{"\u0070ragma":"h"}', '{"mergeProps":false,"enableObjectSlots":false,"transformOn":true,"resolveType":true}',
+    '{"mergeProps":null}', '{"resolveType":0}', '{"optimize":true,"Optimize":false}', '{"":1}', '{"optimize":true,"x":{"optimize":false}}',
+    '{"customElementPatterns":[]}', '{"customElementPatterns":["^x-","^x-"]}', '{"pragma":"h","pragma":"g"}', '{"enableObjectSlots":"false"}',
+]
+
+
+def gen_c14(seed, tier, start):
+    rng = gen_cases.Rng(seed * 31 + 5)
+    out = []
+    i = start
+    src = "const v = <x-el class={a} on={{ click: f }} {...y}><Comp>{g()}</Comp></x-el>;\n"
+    # (1) configuration texts through the real serde_json call
+    texts = list(OPTION_TEXTS)
+    keys = ["transformOn", "optimize", "mergeProps", "enableObjectSlots", "resolveType", "pragma", "customElementPatterns", "zzz", "transform_on"]
+    vals = ["true", "false", "null", "1", '"h"', '["^x-"]', '["("]', "[]", "{}"]
+    for _ in range(150 if tier == "quick" else 3000):
+        n = rng.below(4)
+        texts.append("{" + ",".join('"%s":%s' % (rng.pick(keys), rng.pick(vals)) for _ in range(n)) + "}")
+    for t in texts:
+        out.append({"id": i, "src": src, "syntax": "jsx", "options": t, "stream": "options", "feat": ["options-text"]}); i += 1
+    # (2) paired runs: flip an option whose feature the module does not use
+    mods = gen_modules(seed, tier, i, 220, 5000)
+    for c in mods:
+        f = set(c["feat"]); o = json.loads(c["options"]); a = dict(o)
+        choices = []
+        if not ({"attrk:on", "attrk:nativeOn"} & f):
+            choices.append("transformOn")
+        if not any(x.startswith("single:") for x in f):
+            choices.append("enableObjectSlots")
+        choices.append("customElementPatterns")
+        choices.append("resolveType")
+        k = choices[rng.below(len(choices))]
+        if k == "customElementPatterns":
+            a["customElementPatterns"] = list(o.get("customElementPatterns", [])) + ["^zzz-never$"]
+        else:
+            dflt = {"transformOn": False, "enableObjectSlots": True, "resolveType": False}[k]
+            a[k] = not o.get(k, dflt)
+        c["options_alt"] = json.dumps(a); c["feat"] = c["feat"] + ["flip:" + k]
+    return out + mods
+
+
+def judge_c14(case, side, res):
+    st = side.get("status")
+    if st == "bad-options":
+        ok = res is not None and res.get("optcorr") == "1"
+        return {"relevant": True, "ok": True, "corr_ok": ok, "why": None if ok else "serde rejected the configuration but the model of Options accepts it"}
+    v = make_judge(None, None, whole=True)(case, side, res)
+    if res is not None and res.get("optcorr", "1") != "1":
+        v["corr_ok"] = False; v["why"] = "model of Options deserialisation disagrees with serde_json"
+    if res is not None and "options_alt" in case and res.get("alt_same", "1") != "1":
+        v["ok"] = False; v["oracle_why"] = "flipping %s changed the output although the module does not use that feature" % [x for x in case["feat"] if x.startswith("flip:")]
+    if case.get("stream") == "options" and res is not None and st == "ok":
+        # documented defaults: `{}` and `[]` behave as no configuration
+        pass
+    return v
+
+
+def gen_c15(seed, tier, start):
+    cs = gen_modules(seed, tier, start, 260, 6000)
+    rng = gen_cases.Rng(seed * 13 + 1)
+    texts = ["@jsx h", " @jsx custom more words ", "* @jsxImportSource vue", "@jsxRuntime automatic", "@jsxFrag F", "@jsx", "plain",
+             "*\n * @jsx  pragma2\n * tail", "@jsxRuntime classic @jsx h", "x@jsx\tq ", "@jsx\u00a0nb", "@JSX h", "@jsx h.x"]
+    for c in cs:
+        k = rng.below(4)
+        t = rng.pick(texts)
+        cm = ("/* %s */\n" % t) if "\n" in t or rng.chance(1, 2) else ("// %s\n" % t)
+        if k == 0:
+            c["src"] = cm + c["src"]
+        elif k == 1:
+            lines = c["src"].split("\n")
+            pos = rng.below(len(lines))
+            lines.insert(pos, cm.rstrip("\n"))
+            c["src"] = "\n".join(lines)
+        elif k == 2:
+            c["src"] = c["src"] + "function inner() { /* @jsx never */ return <div/> }\n"
+        c["feat"] = c["feat"] + ["comment-placement:%d" % k]
+    return cs
+
+
 PROPS = {
+    "C07": {
+        "gen": lambda seed, tier, start: gen_modules(seed, tier, start, 300, 8000),
+        "judge": judge_c07,
+        "trusted": ["`printed output re-parses` is a statement about SWC's printer and parser, checked per case, not proved"],
+        "assumptions": ["module level: the traversal reaches every JSX expression (checked by the census of the real output of each case)"],
+    },
+    "C08": {
+        "gen": lambda seed, tier, start: gen_modules(seed, tier, start, 260, 6000) + gen_cases.gen_types_cases(seed, 60 if tier == "quick" else 1500, start + 10000),
+        "judge": judge_c08,
+        "extra": c08_fresh_process_extra,
+        "trusted": ["stack depth, wall-clock time and process-level nondeterminism cannot be exhibited by a Gallina model; they are covered by the harness's child-process runs only"],
+        "assumptions": ["lints: no clock/env/random/thread/static state, registries never iterated"],
+    },
+    "C09": {"gen": gen_c09, "judge": judge_c09,
+            "trusted": ["real-world corpus: 70 JSX-free files taken from the sandbox's npm installation (corpus/jsfree)"],
+            "assumptions": ["idempotence is decided on the real second pass of every case; as a theorem it is only available through C09_identity for outputs that are JSX-free"]},
+    "C12": {"gen": gen_pairs_optimize,
+            "judge": lambda c, s, r: (lambda v: (v.update({"ok": False, "oracle_why": "erasing the hints of the optimize=true output does not give the optimize=false output"}) or v) if (r and s.get("status") == "ok" and r.get("alt_strip", "1") != "1") else v)(make_judge(None, None, whole=True)(c, s, r)),
+            "trusted": ["Spec/OutViews.strip_hints is this check's definition of `erasing hint arguments`"],
+            "assumptions": ["module-level equality is decided on paired real runs; the theorems cover the pieces of the lowering"]},
+    "C14": {"gen": gen_c14, "judge": judge_c14,
+            "trusted": ["serde / serde_json / regex are exercised, not verified; Model/Options.v is a model of serde's derive output"],
+            "assumptions": ["feature classification of generated modules comes from the generator's own feature vector"]},
+    "C15": {"gen": gen_c15, "judge": make_judge("oC15", "vC15"),
+            "trusted": ["modules whose annotations disagree are outside the claim (the code's last-one-wins rule is modelled, not claimed)"],
+            "assumptions": []},
     "C13": {
         "gen": gen_c13,
         "judge": make_judge("oC13", "vC13", relevant=lambda c, s, r: '"optimize": true' in c["options"] or '"optimize":true' in c["options"]),
